@@ -25,6 +25,27 @@ Theorem C30_parsers_agree_invalid : forall s, s <> [] -> parse_specs s = None ->
 Proof. exact parsers_agree_err. Qed.
 Print Assumptions C30_parsers_agree_invalid.
 
+(** No int64 wrap-around in parseRange: for EVERY header string (valid or not) and every size, each range it returns
+    lies inside the file — 0 <= start, 1 <= length, start + length <= size — so `i - r.start + 1`, `size - i`,
+    `start + length - 1` and the numbers printed into Content-Range / Content-Length stay within [0, size]; the
+    model's unbounded integers therefore agree with Go's int64 there.  (ParseInt's int64 range check is explicit
+    in the model: 2^63-1 parses, 2^63 is an error.)  A change that lets a length wrap (e.g. clamping after the
+    subtraction instead of before) contradicts this theorem and shows up as a 206 whose observed Content-Range /
+    Content-Length violate [consistent]. *)
+Theorem C30_ranges_in_file : forall size s rs, 0 <= size -> pr false s size = PROk rs -> Forall (range_ok size) rs.
+Proof. exact pr_range_ok. Qed.
+Print Assumptions C30_ranges_in_file.
+
+Example C30_example_int64 :
+  pr false (s2l "bytes=0-9223372036854775807") 10 = PROk [(0, 10)] /\
+  pr false (s2l "bytes=0-9223372036854775808") 10 = PRErr /\
+  model flags_off (mkq GET 10 "bytes=0-9223372036854775807" IfrNone) = partial_resp GET 10 0 9 /\
+  (* the response of the seeded overflow: rejected by the specification *)
+  spec_ok (mkq GET 10 "bytes=0-9223372036854775807" IfrNone)
+    {| o_status := 206; o_cr := CRRange 0 9223372036854775807 10; o_cl := Some (-9223372036854775808);
+       o_blen := 0; o_match := [0; 10] |} = false.
+Proof. vm_compute. repeat split. Qed.
+
 (** Refinement: for every request whose Range header is absent or a valid byte-range set (any method, size,
     If-Range and If-None-Match outcome) the defect-free response model equals the abstract response [ideal],
     which is computed from the requested specs alone: 304; else the whole file when no range is in effect; else
